@@ -190,7 +190,7 @@ type SampledCase struct {
 
 func TestC12RejectSampled(t *testing.T) {
 	ws := theWorlds(t)
-	vlib.Check(t, 250, 2500, func(rt *rapid.T) {
+	vlib.Check(t, 200, 2000, func(rt *rapid.T) {
 		var c RejectCase
 		c.Path = "mem"
 		switch rapid.IntRange(0, 9).Draw(rt, "baseKind") {
@@ -324,7 +324,7 @@ func TestC12RejectEnumerated(t *testing.T) {
 		}
 		flipStride, fixStride := 1, 4
 		if len(file) > 700 {
-			flipStride, fixStride = 7, 16
+			flipStride, fixStride = 16, 16
 			if vlib.Thorough() {
 				flipStride, fixStride = 1, 8
 			}
@@ -417,7 +417,7 @@ func TestC12Isolated(t *testing.T) {
 	}
 	nHostile := len(cases)
 	// (b) file system, mmap and plain reads, reader and writer
-	budget := vlib.Scale(2400, 14000)
+	budget := vlib.Scale(1800, 12000)
 	var fsCases []RejectCase
 	for wi, w := range ws {
 		for li, layout := range []string{"new", "old", "two"} {
